@@ -29,8 +29,11 @@ func (r *decoderRefer) Set(i int, o interface{}) {
 	r.ref[i] = o
 }
 
-func (r *decoderRefer) Read(i int) interface{} {
-	return r.ref[i]
+func (r *decoderRefer) Read(i int) (interface{}, bool) {
+	if i < 0 || i >= len(r.ref) {
+		return nil, false
+	}
+	return r.ref[i], true
 }
 
 func (r *decoderRefer) Reset() {
